@@ -56,4 +56,9 @@ META = {
         note=COMMON_NOTE + "Partial: see evidence.coverage.partial for the strategies/flows whose theorem is not yet proved.",
         technique="Lean 4 proof (induction) + differential correspondence with the Go strategies",
     ),
+    "C20": dict(
+        text="Kernel-checked theorems over the Lean model of errors.go rendering and of every Write* function, for all byte strings and both formats: with debug exposure off every error writer's complete response is invariant under blanking every debug field and wrapped message of the Go error; error_debug exists iff legacy format and exposure on; the RFC-format description contains no double quote; status and error code equal the error's table entry; every writer ends with exactly one Cache-Control: no-store and Pragma: no-cache even against responder-supplied headers; the model equals a table-style specification wherever that prescribes. Tied to /repo by a differential run of the real writers into a ResponseRecorder, read back with independent JSON/URL/HTML parsers, plus a raw leak scan.",
+        note=COMMON_NOTE + "Rendering half; the storage half is covered by the history driver's call-log taint scan (see partial). JSON/URL/HTML escaping are parameters validated differentially; i18n catalog and custom ResponseModeHandler not modelled.",
+        technique="Lean 4 proof (structural invariance + refinement to a tabular spec) + differential correspondence with independent response parsers",
+    ),
 }
